@@ -29,13 +29,17 @@ def specBlit (width buflen : Nat) (g : Geo) (imgpix : Nat) : String :=
 
 def c19 (toks : List String) : String :=
   match toks.tail.mapM String.toNat? with
-  | some [width, buflen, left, top, right, bottom, bw, _bh, imgpix, _extra] =>
+  | some [width, buflen, left, top, right, bottom, bw, bh, imgpix, _extra] =>
     let g : Geo := ⟨left, top, right, bottom, bw⟩
     let buf := (List.range buflen).map bufCell
-    let img := (List.range imgpix).map imgCell
+    -- `BitmapEvent::decompress` of raw 32 bpp: exactly bw x bh pixels, or an error on short data
+    if imgpix < bw * bh then
+      "E " ++ showCells buf ++ "\t" ++ "E " ++ showCells buf
+    else
+    let img := (List.range (bw * bh)).map imgCell
     let r := blit buf width g img
     (match r.2 with | .ok _ => "ok " | .err _ => "E " | .panic _ => "P ") ++ showCells r.1.buf
-      ++ "\t" ++ specBlit width buflen g imgpix
+      ++ "\t" ++ specBlit width buflen g (bw * bh)
   | _ => "bad-case"
 
 end Rdp.Driver
